@@ -87,9 +87,10 @@ DEFAULT_OVERRIDE = {'server': {'port': 8888}}
 PATHS = ['/cells/*/outputs', '/cells/*/metadata', '/metadata', '/cells/*/attachments', '/cells/*/source']
 PATH_VALUES = [True, False, ['collapsed'], ['tags', 'foo'], ['a', 'b', 'c'], None]
 DOMAIN = {
-    'log_level': LOG_LEVELS, 'port': [0, 8888, 8889, 9000, 9001], 'ip': ['127.0.0.1', '0.0.0.0', '::1'],
-    'base_url': ['/', '/nb/', '/x/y/'], 'browser': ['firefox', 'chrome', None], 'persist': [True, False],
-    'workdirectory': ['/srv/a', '/srv/b'], 'color_words': [True, False], 'merge_strategy': STRATS,
+    'log_level': LOG_LEVELS, 'port': [0, 8888, 8889, 9000, 9001], 'ip': ['127.0.0.1', '0.0.0.0', '::1', ''],
+    # the empty string is a value like any other ("no browser", "all interfaces"), not "unset"
+    'base_url': ['/', '/nb/', '/x/y/', ''], 'browser': ['firefox', 'chrome', None, ''], 'persist': [True, False],
+    'workdirectory': ['/srv/a', '/srv/b', ''], 'color_words': [True, False], 'merge_strategy': STRATS,
     'input_strategy': STRATS + [None], 'output_strategy': OUT_STRATS + [None], 'ignore_transients': [True, False],
     'show_base': [True, False],
 }
